@@ -106,11 +106,48 @@ def causalCheck (U : Universe) (P : Problem) (calls : List String) : Option Stri
       else go rest reqs names seenC seenD
   go calls P.reqs (namesOfDeps U P.reqs P.constraints) [] []
 
+/-! ### C11: at every quiescent point every implied `get_candidates` request has been issued -/
+
+/-- `events`: `pending a b …` (the outstanding provider requests when the solver returned Pending) and
+    `complete x`. `known`: names whose candidates were fetched by earlier solves on the same solver. -/
+def c11Check (U : Universe) (P : Problem) (events : List String) (known : List Nat) : Option String :=
+  let rec go (evs : List String) (names : List Nat) (doneC : List Nat) : Option String :=
+    match evs with
+    | [] => none
+    | e :: rest =>
+      let ws := (e.splitOn " ").filter (· != "")
+      match ws with
+      | "pending" :: ps =>
+        let pend := (ps.filter (·.startsWith "c")).map (fun w => (w.drop 1).toString.toNat?.getD 0)
+        match names.find? (fun n => !(doneC.contains n || pend.contains n)) with
+        | some n => some s!"the solver is blocked (outstanding: {" ".intercalate ps}) but get_candidates({n}), already implied by dependency information it has received, has not been issued"
+        | none => go rest names doneC
+      | ["complete", x] =>
+        if x.startsWith "c" then go rest names (((x.drop 1).toString.toNat?.getD 0) :: doneC)
+        else if x.startsWith "d" then
+          let sv := (x.drop 1).toString.toNat?.getD 0
+          match U.deps sv with
+          | .known rs cs => go rest (names ++ namesOfDeps U rs cs) doneC
+          | .unknown _ => go rest names doneC
+        else go rest names doneC
+      | _ => go rest names doneC
+  go events (namesOfDeps U P.reqs P.constraints) known
+
+/-- A provider request repeated although its answer had already been obtained. In asynchronous
+    logs `C<n>` / `D<s>` mark the moment the provider's future returned its answer (a request
+    abandoned by cancellation may legitimately be issued again); in synchronous logs a request is
+    answered at once. -/
 def dupCalls (calls : List String) : Option String :=
-  let cs := calls.filter (fun c => c.startsWith "c" || c.startsWith "d")
+  let hasMarkers := calls.any (fun c => c.startsWith "C" || c.startsWith "D")
   let rec go : List String → List String → Option String
     | [], _ => none
-    | c :: rest, seen => if seen.contains c then some c else go rest (c :: seen)
-  go cs []
+    | c :: rest, obtained =>
+      if c.startsWith "c" || c.startsWith "d" then
+        if obtained.contains c then some c
+        else go rest (if hasMarkers then obtained else c :: obtained)
+      else if c.startsWith "C" then go rest (("c" ++ (c.drop 1).toString) :: obtained)
+      else if c.startsWith "D" then go rest (("d" ++ (c.drop 1).toString) :: obtained)
+      else go rest obtained
+  go calls []
 
 end Resolvo
